@@ -47,11 +47,12 @@ type keScript struct {
 	noEOM    bool
 	desc     string
 	// derived
-	expectOK  bool // the statement allows success
-	ambiguous bool // statement silent (e.g. warning record): either outcome
-	cookies   [][]byte
-	server    string
-	port      uint16
+	expectOK    bool // the statement allows success
+	ambiguous   bool // statement silent (e.g. warning record): either outcome
+	cookies     [][]byte
+	server      string
+	port        uint16
+	unreachable bool // the server named is not an address and resolves to nothing
 	// filled by the peer
 	handshook bool
 	c2s, s2c  []byte
@@ -90,8 +91,14 @@ func keGenScript(tp *simcore.Tape, k int) *keScript {
 		recs = append(recs, keRecord{Type: 4, Critical: true, Body: u16(aead), Note: "aead"})
 	}
 	if tp.Bool(1, 2, "srvrec") {
-		s.server = []string{c20SrvIP, c20AltIP}[tp.Intn(2, "srvwhich")]
+		s.server = []string{c20SrvIP, c20AltIP, c20SrvIP, c20AltIP, "time.example.net"}[tp.Intn(5, "srvwhich")]
 		recs = append(recs, keRecord{Type: 6, Body: []byte(s.server), Note: "server"})
+		if s.server == "time.example.net" {
+			// a host name (legal); this client does not resolve names, and nothing in the world
+			// answers to this one: no request can go to the server named
+			s.unreachable = true
+			s.desc += "names-a-host "
+		}
 	}
 	if tp.Bool(1, 2, "portrec") {
 		s.port = []uint16{123, 4123, 65535}[tp.Intn(3, "portwhich")]
@@ -457,6 +464,18 @@ func c20World(t *testing.T, r *simcore.Run) any {
 					return
 				}
 				continue // the dial itself failed: nothing more to check
+			}
+			if dials == 1 && sc.unreachable {
+				// whatever the client makes of the exchange, requests go to the server named or
+				// nowhere - not to the configured address, nor to the one an earlier exchange named
+				if nreq > 0 {
+					r.Fail("C20", "destination/named", "%s: request went to %v, the exchange named the host %q", line, reqs[len(reqs)-1].dst, sc.server)
+					return
+				}
+				r.Probe("named-host-not-an-address")
+				fetcher.VerifForget() // the next attempt starts over (keeps the histories mixed)
+				pool, cur = nil, nil
+				continue
 			}
 			if dials == 1 {
 				if poolBefore != 0 {
